@@ -193,6 +193,18 @@ func reqMsg(caseID, idx, size int) *dynamicpb.Message {
 		return m
 	}
 	m.Set(reqDesc().Fields().ByName("s"), protoreflect.ValueOfString(fmt.Sprintf("c%d-m%d", caseID, idx)))
+	if size >= 8 && (caseID+idx)%3 == 1 {
+		// one message in three carries its bulk inside nested messages (in JSON: objects within the object, the last one
+		// holding most of the bytes), not in a top-level string
+		sd := subDesc()
+		n := dynamicpb.NewMessage(sd)
+		n.Set(sd.Fields().ByName("s"), protoreflect.ValueOfString("x"))
+		m.Set(reqDesc().Fields().ByName("n"), protoreflect.ValueOfMessage(n))
+		b := dynamicpb.NewMessage(sd)
+		b.Set(sd.Fields().ByName("s"), protoreflect.ValueOfString(filler(size-1, idx)))
+		m.Set(reqDesc().Fields().ByName("b"), protoreflect.ValueOfMessage(b))
+		return m
+	}
 	if size > 0 {
 		// the text ends in characters a JSON scanner has to get right: a trailing backslash, quotes, braces
 		t := filler(size, idx)
@@ -913,6 +925,9 @@ func (e *rpcEnv) buildRequest() *http.Request {
 		}
 		if c.Accept != "" {
 			req.Header.Set("Accept", c.Accept)
+		}
+		if c.ID%3 == 0 { // what Go's http.Client, curl --compressed and browsers send on their own
+			req.Header.Set("Accept-Encoding", []string{"gzip", "gzip, deflate, br", "gzip;q=1.0, identity;q=0.5"}[c.ID/3%3])
 		}
 	}
 	if c.Timeout != "" {
